@@ -204,7 +204,7 @@ def meiosis_stub(tag_list):
         gat, sat = geno._at, sel._at
         e.assume(z3.ForAll([r, j], z3.Implies(z3.And(0 <= r, r < _t(n), 0 <= j, j < _t(p)),
                                               res._fn(r, j) == gat(ph(r, j), sat(r), j)), patterns=[res._fn(r, j)]))
-        tag_list.append(dict(ph=ph, rnd=rnd, geno=geno, gat=gat, sel=sel, sat=sat, res=res, rng=rng))
+        tag_list.append(dict(ph=ph, rnd=rnd, geno=geno, gat=gat, sel=sel, sat=sat, res=res, rng=rng, xoprob=xoprob))
         return res
     return stub
 
